@@ -420,6 +420,35 @@ def run(rep):
                         if v and v[0] in ("Token", "ModSym", "MiscSym", "MatchSym"):
                             kinds.append(v[1])
             tk_ = tuple(kinds[:2])
+            if kinds[:1] == ["Modifier"] and len([k_ for k_ in kinds[1:] if k_ in ("Flt", "Int", "Not", "Str")]) != 1:
+                # the four cast arms merged into one (`Token::Modifier(m) => .. Cast(s, m)`): the cast symbol is the token's own symbol
+                val = peel(l["fields"][0]["e"])
+                mods = set()
+                for e in q.context(path, leaf):
+                    if e[0] == "arm":
+                        for alt in or_pats(e[1]):
+                            if variant_of(alt) and variant_of(alt)[0] == "Token" and variant_of(alt)[1] == "Modifier":
+                                mods |= {b[1] for b in facts.pat_binds(alt)}
+                def _is_token_symbol(e_):
+                    for _ in range(6):
+                        e_ = peel(e_)
+                        while e_.get("k") == "Call" and (e_.get("fn") or "").endswith(("Clone::clone", "ToOwned::to_owned", "Deref::deref")) and len(e_["args"]) == 1:
+                            e_ = peel(e_["args"][0])
+                        if e_.get("k") not in ("Var", "Upvar"):
+                            return False
+                        if mods & q.alias_sources(pn_.body, e_["id"]):
+                            return True
+                        init_ = q.let_init(pn_.body, e_["id"])
+                        if init_ is None:
+                            return False
+                        e_ = init_
+                    return False
+                okm = val.get("k") == "Adt" and val.get("variant") == "Cast" and len(val["fields"]) == 2 and _is_token_symbol(val["fields"][1]["e"])
+                for kd in ("Flt", "Int", "Not", "Str"):
+                    n_k = seen_nud.get(("Modifier", kd), 0)
+                    seen_nud[("Modifier", kd)] = n_k + 1
+                    rep.check(okm, "T-NUD", "T-NUD/Modifier-%s#%d" % (kd, n_k), l["sp"], "a modifier token yields Expression::Cast with that same modifier", show(val)[:100])
+                continue
             if tk_ not in NUD:
                 rep.bad("T-NUD", "T-NUD/unexpected/%s" % "-".join(tk_), l["sp"], "parse_nud answers Ok only for the ten token kinds that can start an expression", show(l)[:80])
                 continue
